@@ -114,7 +114,7 @@ def build_harness(binname):
 
 def _tlc_cmd(spec, cfg, workers, metadir, extra=(), xmx="8g", jopts=()):
     return ["java", "-XX:+UseParallelGC", f"-Xmx{xmx}", *jopts, "-cp", TLA_CP, "tlc2.TLC",
-            "-workers", str(workers), "-metadir", metadir, "-cleanup", "-noGenerateSpecTE",
+            "-workers", str(workers), "-metadir", metadir, "-cleanup", "-noGenerateSpecTE", "-checkpoint", "0",
             "-config", cfg, *extra, spec]
 
 
